@@ -122,7 +122,11 @@ func (r *dataReader) Read(b []byte) (n int, err error) {
 				r.state = stateEOF
 				continue
 			}
-			r.state = stateData
+			// Not an end marker: hand out the CR that was held back and
+			// look at c again.
+			r.r.UnreadByte()
+			c = '\r'
+			r.state = stateCR
 		case stateCR:
 			if c == '\n' {
 				r.state = stateBeginLine
